@@ -1822,8 +1822,12 @@ func (t *tScreen) collectEventsFromInput(buf *bytes.Buffer, expire bool) []Event
 		if partials == 0 || expire {
 			if b[0] == '\x1b' {
 				if len(b) == 1 {
-					res = append(res, NewEventKey(KeyEsc, 0, ModNone))
-					t.escaped = false
+					mod := ModNone
+					if t.escaped {
+						t.escaped = false
+						mod = ModAlt
+					}
+					res = append(res, NewEventKey(KeyEsc, 0, mod))
 				} else {
 					t.escaped = true
 				}
